@@ -437,7 +437,7 @@ func Run(sc Script, rep *kit.Report, cfg RunConfig) (st *State, env *Env, err er
 	}
 	var hfs *HookFS
 	for _, op := range sc.Ops {
-		if op.Kind == "gcdel" {
+		if op.Kind == "gcdel" || op.Kind == "gcwith" {
 			hfs = NewHookFS(env.FS)
 			env.FS = hfs
 			break
@@ -464,15 +464,20 @@ func Run(sc Script, rep *kit.Report, cfg RunConfig) (st *State, env *Env, err er
 		return st, env, kit.Fail("create-error", "CreateChannel failed: %v", err)
 	}
 	domains := map[uint32]int{}
-	for i, op := range sc.Ops {
+	// step executes one script operation; stop reports that the script ends here (discard or
+	// violation). It is a closure so that a garbage-collection pass can run the operations
+	// that follow it from its copy hook ("gcwith").
+	skip := 0
+	var step func(i int, op Op) (stop bool, err error)
+	step = func(i int, op Op) (stop bool, err error) {
 		where := fmt.Sprintf("after op %d (%s)", i, op.Kind)
 		if cfg.OnStep != nil {
 			cfg.OnStep(i, op, "start", st)
 		}
 		full := false
-		if op.Kind == "read" || op.Kind == "gc" || op.Kind == "delete" || op.Kind == "gcdel" {
+		if op.Kind == "read" || op.Kind == "gc" || op.Kind == "delete" || op.Kind == "gcdel" || op.Kind == "gcwith" {
 			if discard, berr := barrier(env, st, rep); berr != nil || discard {
-				return st, env, berr
+				return true, berr
 			}
 		}
 		switch op.Kind {
@@ -489,7 +494,7 @@ func Run(sc Script, rep *kit.Report, cfg RunConfig) (st *State, env *Env, err er
 			if oerr != nil {
 				rep.Discard("open-writer-error")
 				rep.Add("discard:"+oerr.Error()[:min(60, len(oerr.Error()))], 1)
-				return st, env, nil
+				return true, nil
 			}
 			env.Writers[op.W] = w
 			ws := st.ApplyOpen(op)
@@ -511,13 +516,13 @@ func Run(sc Script, rep *kit.Report, cfg RunConfig) (st *State, env *Env, err er
 		case "write":
 			ws, ok := st.Writers[op.W]
 			if !ok {
-				return st, env, kit.Fail("script-bug", "write on unknown writer %d", op.W)
+				return true, kit.Fail("script-bug", "write on unknown writer %d", op.W)
 			}
 			if ws.DataOnly {
 				// validate against the executor's own model (see DESIGN: divergence => discard)
 				if ws.Wrote+len(op.TS) > len(ws.Avail) || !sameTS(ws.Avail[ws.Wrote:ws.Wrote+len(op.TS)], op.TS) {
 					rep.Discard("model-divergence")
-					return st, env, nil
+					return true, nil
 				}
 			}
 			fr := BuildFrame(st, op)
@@ -525,7 +530,7 @@ func Run(sc Script, rep *kit.Report, cfg RunConfig) (st *State, env *Env, err er
 			if werr != nil || !auth {
 				rep.Discard("write-error")
 				rep.Add("discard:"+fmt.Sprint(werr), 1)
-				return st, env, nil
+				return true, nil
 			}
 			before := map[uint32]int{}
 			for _, k := range ws.Channels {
@@ -544,7 +549,7 @@ func Run(sc Script, rep *kit.Report, cfg RunConfig) (st *State, env *Env, err er
 			if cerr != nil {
 				rep.Discard("commit-error")
 				rep.Add("discard:"+cerr.Error()[:min(80, len(cerr.Error()))], 1)
-				return st, env, nil
+				return true, nil
 			}
 			st.ApplyCommit(op.W)
 			for _, k := range ws.Channels {
@@ -561,7 +566,7 @@ func Run(sc Script, rep *kit.Report, cfg RunConfig) (st *State, env *Env, err er
 			if cerr != nil {
 				rep.Discard("close-error")
 				rep.Add("discard:"+cerr.Error()[:min(80, len(cerr.Error()))], 1)
-				return st, env, nil
+				return true, nil
 			}
 			st.ApplyClose(op.W)
 			full = cfg.CheckEvery
@@ -570,7 +575,7 @@ func Run(sc Script, rep *kit.Report, cfg RunConfig) (st *State, env *Env, err er
 				// DB.Close with open writers is documented misuse; generated scripts never
 				// contain it (this guards hand-edited and minimised replays).
 				rep.Discard("illegal-script:reopen-with-open-writer")
-				return st, env, nil
+				return true, nil
 			}
 			if cerr := env.DB.Close(); cerr != nil {
 				// Not a violation of the read properties by itself: the database is marked
@@ -580,7 +585,7 @@ func Run(sc Script, rep *kit.Report, cfg RunConfig) (st *State, env *Env, err er
 			}
 			env.DB = nil
 			if oerr := env.OpenDB(); oerr != nil {
-				return st, env, kit.Fail("reopen-error", "cesium.Open on existing data failed at op %d: %v", i, oerr)
+				return true, kit.Fail("reopen-error", "cesium.Open on existing data failed at op %d: %v", i, oerr)
 			}
 			if cfg.AfterOpen != nil {
 				cfg.AfterOpen(env)
@@ -588,32 +593,100 @@ func Run(sc Script, rep *kit.Report, cfg RunConfig) (st *State, env *Env, err er
 			rep.Class("reopen")
 			full = true
 			if serr := CheckSide(ctx, env.DB, st, where); serr != nil {
-				return st, env, serr
+				return true, serr
 			}
 		case "read":
 			for _, key := range st.M.Order {
 				if rerr := CheckRead(ctx, env.DB, st.M, key, op.A, op.B, where); rerr != nil {
-					return st, env, rerr
+					return true, rerr
 				}
 			}
 			classifyRead(st.M, op, rep)
 		case "delete":
 			if derr := execDelete(ctx, env, st, op, rep, where); derr != nil {
-				return st, env, derr
+				return true, derr
 			}
 			full = cfg.CheckEvery
 		case "gc":
 			if cfg.GC == nil {
-				return st, env, kit.Fail("script-bug", "gc op without GC hook")
+				return true, kit.Fail("script-bug", "gc op without GC hook")
 			}
-			if gerr := execGC(ctx, env, st, cfg, rep, where); gerr != nil {
-				return st, env, gerr
+			if gerr := execGC(ctx, env, st, cfg, rep, where, false); gerr != nil {
+				return true, gerr
 			}
 			full = true
 		case "wait":
 			// lets a writer's index persistence interval elapse (no effect on the model)
 			time.Sleep(time.Duration(op.A) * time.Microsecond)
 			rep.Class("wait")
+		case "gcwith":
+			// A garbage-collection pass during which the next op.Span operations of the script
+			// run, started at the moment the collector opens its first copy file (after it has
+			// scanned the index of that file). They run on a goroutine of their own; the
+			// collector waits for them 150 ms at most (they may legitimately block on its
+			// locks). Whatever the order, the pass is invisible to the model.
+			if cfg.GC == nil || hfs == nil {
+				return true, kit.Fail("script-bug", "gcwith op without GC hook")
+			}
+			k := 0
+			for k < op.Span && i+1+k < len(sc.Ops) {
+				switch sc.Ops[i+1+k].Kind {
+				case "gc", "gcdel", "gcwith", "reopen":
+					// passes never overlap (one collector goroutine in production)
+				default:
+					k++
+					continue
+				}
+				break
+			}
+			var (
+				fired bool
+				nstop bool
+				nerr  error
+				done  = make(chan struct{})
+			)
+			nested := func() {
+				defer close(done)
+				for j := 1; j <= k; j++ {
+					if nstop, nerr = step(i+j, sc.Ops[i+j]); nstop || nerr != nil {
+						return
+					}
+				}
+			}
+			hfs.SetHook(func(path string, flag int) {
+				if fired || !strings.HasSuffix(path, "_gc") {
+					return
+				}
+				fired = true
+				go nested()
+				select {
+				case <-done:
+					rep.Class("ops-completed-during-gc-copy")
+				case <-time.After(150 * time.Millisecond):
+					rep.Class("ops-blocked-until-gc-finished")
+				}
+			})
+			gerr := execGC(ctx, env, st, cfg, rep, where, true)
+			hfs.SetHook(nil)
+			if fired {
+				select {
+				case <-done:
+				case <-time.After(60 * time.Second):
+					return true, kit.Fail("stall", "%s: operations started during a garbage-collection pass did not return within 60 s of the end of the pass", where)
+				}
+				rep.Class("gc-with-ops-in-flight")
+			} else {
+				rep.Class("gcwith-gc-copied-nothing")
+				nested()
+			}
+			skip = k
+			if gerr != nil {
+				return true, gerr
+			}
+			if nstop || nerr != nil {
+				return true, nerr
+			}
+			full = true
 		case "gcdel":
 			// A garbage-collection pass with a delete fired at the moment the collector opens
 			// its first copy file, i.e. after it has scanned the index for that file. The
@@ -622,7 +695,7 @@ func Run(sc Script, rep *kit.Report, cfg RunConfig) (st *State, env *Env, err er
 			// the pass). Either order is a legal outcome for the model: the delete is applied,
 			// the pass is invisible.
 			if cfg.GC == nil || hfs == nil {
-				return st, env, kit.Fail("script-bug", "gcdel op without GC hook")
+				return true, kit.Fail("script-bug", "gcdel op without GC hook")
 			}
 			var (
 				fired bool
@@ -647,13 +720,13 @@ func Run(sc Script, rep *kit.Report, cfg RunConfig) (st *State, env *Env, err er
 					rep.Class("delete-blocked-until-gc-finished")
 				}
 			})
-			gerr := execGC(ctx, env, st, cfg, rep, where)
+			gerr := execGC(ctx, env, st, cfg, rep, where, false)
 			hfs.SetHook(nil)
 			if fired {
 				select {
 				case <-done:
 				case <-time.After(60 * time.Second):
-					return st, env, kit.Fail("stall", "%s: a delete fired during a garbage-collection pass did not return within 60 s of the end of the pass", where)
+					return true, kit.Fail("stall", "%s: a delete fired during a garbage-collection pass did not return within 60 s of the end of the pass", where)
 				}
 				rep.Class("gc-with-delete-in-flight")
 			} else {
@@ -661,36 +734,46 @@ func Run(sc Script, rep *kit.Report, cfg RunConfig) (st *State, env *Env, err er
 				derr = execDelete(ctx, env, st, del, rep, where)
 			}
 			if gerr != nil {
-				return st, env, gerr
+				return true, gerr
 			}
 			if derr != nil {
-				return st, env, derr
+				return true, derr
 			}
 			full = true
 		case "xcreate", "xwrite", "xrename", "xdelete":
 			if xerr := execSide(ctx, env, st, op); xerr != nil {
 				rep.Discard("side-op-error")
 				rep.Add("discard:"+op.Kind+":"+xerr.Error()[:min(70, len(xerr.Error()))], 1)
-				return st, env, nil
+				return true, nil
 			}
 			st.ApplySide(op)
 			rep.Class("side-" + op.Kind)
 			if serr := CheckSide(ctx, env.DB, st, where); serr != nil {
-				return st, env, serr
+				return true, serr
 			}
 		default:
-			return st, env, kit.Fail("script-bug", "unknown op %q", op.Kind)
+			return true, kit.Fail("script-bug", "unknown op %q", op.Kind)
 		}
 		if cfg.OnStep != nil {
 			cfg.OnStep(i, op, "end", st)
 		}
 		if full {
 			if discard, berr := barrier(env, st, rep); berr != nil || discard {
-				return st, env, berr
+				return true, berr
 			}
 			if cerr := CheckAll(ctx, env.DB, st.M, where, cfg.Limit); cerr != nil {
-				return st, env, cerr
+				return true, cerr
 			}
+		}
+		return false, nil
+	}
+	for i, op := range sc.Ops {
+		if skip > 0 {
+			skip--
+			continue
+		}
+		if stop, serr := step(i, op); stop || serr != nil {
+			return st, env, serr
 		}
 	}
 	if cerr := CheckAll(ctx, env.DB, st.M, "at end", cfg.Limit); cerr != nil {
